@@ -30,7 +30,7 @@ type c20Case struct {
 	Outcome    string `json:"outcome"`
 }
 
-var c20Outcomes = []string{"ok", "handler-error", "cancel", "deadline", "transport-failure", "failed-open", "call-on-failed-connection"}
+var c20Outcomes = []string{"ok", "handler-error", "cancel", "deadline", "transport-failure", "failed-open", "call-on-failed-connection", "cancel-with-response-uncollected", "handler-error-eof"}
 
 func c20List(tier string) []c20Case {
 	var out []c20Case
@@ -145,6 +145,9 @@ func c20Run(tier string, seed int64, idx int) *core.Result {
 			resp, err := handler(ctx, &svc.BV{Value: append(append([]byte{}, in.Value...), byte(i))})
 			note(fmt.Sprintf("exit:%d", i))
 			if err != nil {
+				if err == io.EOF {
+					return resp, err // passed through unchanged: the library itself must treat it as a failure
+				}
 				st, _ := status.FromError(err)
 				return resp, status.Error(st.Code(), st.Message()+fmt.Sprintf("<%d", i))
 			}
@@ -159,6 +162,9 @@ func c20Run(tier string, seed int64, idx int) *core.Result {
 			err := handler(srv, &c20SS{ServerStream: ss, ctx: metadata.NewIncomingContext(ss.Context(), md), i: i})
 			note(fmt.Sprintf("exit:%d", i))
 			if err != nil {
+				if err == io.EOF {
+					return err
+				}
 				st, _ := status.FromError(err)
 				return status.Error(st.Code(), st.Message()+fmt.Sprintf("<%d", i))
 			}
@@ -212,7 +218,11 @@ func c20Run(tier string, seed int64, idx int) *core.Result {
 	if c.Outcome == "handler-error" {
 		herr = status.Error(codes.AlreadyExists, "exists")
 	}
-	parkHandler := c.Outcome == "cancel" || c.Outcome == "deadline" || c.Outcome == "transport-failure"
+	if c.Outcome == "handler-error-eof" {
+		herr = io.EOF // e.g. `return err` on stream.Recv() after the half-close
+	}
+	uncollected := c.Outcome == "cancel-with-response-uncollected"
+	parkHandler := c.Outcome == "cancel" || c.Outcome == "deadline" || c.Outcome == "transport-failure" || uncollected
 	var hmu sync.Mutex
 	var hMD metadata.MD
 	var hReq []byte
@@ -243,6 +253,9 @@ func c20Run(tier string, seed int64, idx int) *core.Result {
 				hReq = append([]byte{}, m.Value...)
 				hmu.Unlock()
 			}
+		}
+		if uncollected {
+			ss.SendMsg(&svc.BV{Value: []byte("never collected")})
 		}
 		if parkHandler {
 			<-ss.Context().Done()
@@ -297,6 +310,11 @@ func c20Run(tier string, seed int64, idx int) *core.Result {
 				s.CloseSend()
 			}
 		}
+		if uncollected {
+			// the response is sitting in the stream's read loop; the caller never collects it
+			s.Header()
+			<-m.Done()
+		}
 		for {
 			msg, err := s.Recv()
 			if err != nil {
@@ -314,7 +332,7 @@ func c20Run(tier string, seed int64, idx int) *core.Result {
 		settle(tier, func() bool { hmu.Lock(); defer hmu.Unlock(); return handlerRan > 0 })
 		quiet(tier)
 		switch c.Outcome {
-		case "cancel":
+		case "cancel", "cancel-with-response-uncollected":
 			m.Cancel()
 		case "deadline":
 			m.Fire()
@@ -483,7 +501,7 @@ func c20Run(tier string, seed int64, idx int) *core.Result {
 			if side == "s" {
 				// on the server side the RPC succeeded iff the handler returned nil: a unary handler
 				// is not interrupted by the caller going away (it returns its reply, which is dropped)
-				success = c.Outcome == "ok" || (c.Kind == "unary" && c.Outcome != "handler-error")
+				success = c.Outcome == "ok" || (c.Kind == "unary" && c.Outcome != "handler-error" && c.Outcome != "handler-error-eof")
 			}
 			if (endErr == nil) != success {
 				res.Violate(fmt.Sprintf("stats-end-error-mismatch/%s/%s", side, c.Outcome), "%s: %s-side End.Error=%v but the RPC %s on that side", where, side, endErr, map[bool]string{true: "succeeded", false: "failed"}[success])
@@ -500,7 +518,7 @@ func init() {
 	core.Register(&core.Prop{
 		ID:    "C20",
 		Level: "exploration",
-		Rule:  "one RPC per case over the cross product server interceptor chain length 1..6 (ChainUnary/ChainStreamInterceptor, and the single-interceptor options for length 1) x client interceptor {none, one} x 1..3 stats handlers per side x 4 RPC kinds x 7 outcomes {ok, handler error, cancel, manual deadline, transport failure, open failing in the transport write, call on a connection whose read already failed} (quick: a fixed third of the middle chain lengths). Every interceptor records enter/exit and edits context metadata, request, reply and error; every stats handler tags the context with a fresh token. All cases are distinct tuples and non-trivial.",
+		Rule:  "one RPC per case over the cross product server interceptor chain length 1..6 (ChainUnary/ChainStreamInterceptor, and the single-interceptor options for length 1) x client interceptor {none, one} x 1..3 stats handlers per side x 4 RPC kinds x 9 outcomes {ok, handler error, handler failing with io.EOF, cancel, cancel while a response sits uncollected in the read loop, manual deadline, transport failure, open failing in the transport write, call on a connection whose read already failed} (quick: a fixed third of the middle chain lengths). Every interceptor records enter/exit and edits context metadata, request, reply and error; every stats handler tags the context with a fresh token. All cases are distinct tuples and non-trivial.",
 		Plan:  func(tier string, seed int64) int { return len(c20List(tier)) },
 		Run:   c20Run,
 		RequiredStats: func(string) []string { return []string{"rpcs", "stats_handler_rpc_views_checked"} },
